@@ -106,12 +106,10 @@ structure Pub.ok (x : Pub) : Prop where
   ps_len : x.ps.length = x.m
   ps64 : ∀ p ∈ x.ps, p < 2 ^ 64
 
-/-- **C04 (data under `y`, `z`).** For a fixed caller history, the history in front of the first challenges
-    determines every public datum and `A`. -/
-theorem beforeY_inj_data (ctx : List Event) (x x' : Pub) (hx : x.ok) (hx' : x'.ok) (A A' : Bytes)
-    (h : beforeY ctx x A = beforeY ctx x' A') : x = x' ∧ A = A' := by
-  unfold beforeY at h
-  have h1 := List.append_cancel_left h
+/-- statement data and `A` can be read back from any history that starts with them, whatever follows -/
+theorem stmt_inj_tail (x x' : Pub) (hx : x.ok) (hx' : x'.ok) (A A' : Bytes) (tl tl' : List Event)
+    (h1 : stmtEvents x ++ (append "A" A :: tl) = stmtEvents x' ++ (append "A" A' :: tl')) :
+    x = x' ∧ A = A' ∧ tl = tl' := by
   unfold stmtEvents at h1
   simp only [List.cons_append, List.nil_append, List.append_assoc, List.cons.injEq, true_and] at h1
   obtain ⟨hH, h2⟩ := h1
@@ -129,15 +127,23 @@ theorem beforeY_inj_data (ctx : List Event) (x x' : Pub) (hx : x.ok) (hx' : x'.o
     (by rw [hx.cs_len, hx'.cs_len, hm]) h4
   obtain ⟨hps, h6⟩ := map_inj_of_length (fun p => append "vi - minimum_value" (le64 p)) x.ps x'.ps
     (fun a ha b hb hab => by injection hab with _ hmsg; exact le64_inj a b (hx.ps64 a ha) (hx'.ps64 b hb) hmsg)
-    [append "A" A] [append "A" A'] (by rw [hx.ps_len, hx'.ps_len, hm]) h5
-  have hA : A = A' := by
-    simp only [List.cons.injEq, and_true] at h6
-    injection h6
-  refine ⟨?_, hA⟩
+    (append "A" A :: tl) (append "A" A' :: tl') (by rw [hx.ps_len, hx'.ps_len, hm]) h5
+  simp only [List.cons.injEq] at h6
+  have hA : A = A' := by injection h6.1
+  refine ⟨?_, hA, h6.2⟩
   cases x; cases x'
   simp only at hhb hgb hn ht hm hcs hps
   subst hhb hgb hn ht hm hcs hps
   rfl
+
+/-- **C04 (data under `y`, `z`).** For a fixed caller history, the history in front of the first challenges
+    determines every public datum and `A`. -/
+theorem beforeY_inj_data (ctx : List Event) (x x' : Pub) (hx : x.ok) (hx' : x'.ok) (A A' : Bytes)
+    (h : beforeY ctx x A = beforeY ctx x' A') : x = x' ∧ A = A' := by
+  unfold beforeY at h
+  have h1 := List.append_cancel_left h
+  obtain ⟨a, b, _⟩ := stmt_inj_tail x x' hx hx' A A' [] [] h1
+  exact ⟨a, b⟩
 
 /-- **C04 (context under every challenge).** For fixed data, the history in front of the first challenges
     determines the caller's history. -/
@@ -151,5 +157,102 @@ theorem beforeY_prefix_beforeE (ctx : List Event) (x : Pub) (A : Bytes) (lrs : L
     beforeY ctx x A <+: beforeE ctx x A lrs l r := by
   unfold beforeE
   exact List.prefix_append _ _
+
+/-! ### Round and final challenges, verifier weight path -/
+
+theorem roundEvents_length (lrs : List (Bytes × Bytes)) : (roundEvents lrs).length = 3 * lrs.length := by
+  induction lrs with
+  | nil => rfl
+  | cons p rest ih => obtain ⟨l, r⟩ := p; simp only [roundEvents, List.length_cons, ih]; omega
+
+theorem roundEvents_inj (lrs lrs' : List (Bytes × Bytes)) (t t' : List Event) (ht : t.length = t'.length)
+    (h : roundEvents lrs ++ t = roundEvents lrs' ++ t') : lrs = lrs' ∧ t = t' := by
+  induction lrs generalizing lrs' with
+  | nil =>
+    cases lrs' with
+    | nil => exact ⟨rfl, by simpa [roundEvents] using h⟩
+    | cons p rest =>
+      have := congrArg List.length h
+      simp only [List.length_append, roundEvents_length, List.length_nil, List.length_cons] at this
+      omega
+  | cons p rest ih =>
+    cases lrs' with
+    | nil =>
+      have := congrArg List.length h
+      simp only [List.length_append, roundEvents_length, List.length_nil, List.length_cons] at this
+      omega
+    | cons p' rest' =>
+      obtain ⟨l, r⟩ := p; obtain ⟨l', r'⟩ := p'
+      simp only [roundEvents, List.cons_append, List.cons.injEq, true_and] at h
+      obtain ⟨hl, hr, h'⟩ := h
+      obtain ⟨rfl, rfl⟩ := ih rest' h'
+      have hl' : l = l' := by injection hl
+      have hr' : r = r' := by injection hr
+      subst hl' hr'
+      exact ⟨rfl, rfl⟩
+
+/-- everything absorbed before the final challenge -/
+def beforeFinal (ctx : List Event) (x : Pub) (A : Bytes) (lrs : List (Bytes × Bytes)) (a1 b : Bytes) : List Event :=
+  beforeY ctx x A ++ ([challenge "y" 64, challenge "z" 64] ++ (roundEvents lrs ++ [append "A1" a1, append "B" b]))
+
+/-- everything absorbed into a member's transcript before its weight contribution is drawn (verifier only) -/
+def beforeWeight (ctx : List Event) (x : Pub) (A : Bytes) (lrs : List (Bytes × Bytes)) (a1 b : Bytes)
+    (r1 s1 : Bytes) (d1 : List Bytes) : List Event :=
+  beforeFinal ctx x A lrs a1 b ++ (challenge "e" 64 :: append "r1" r1 :: append "s1" s1 :: d1.map (append "d1"))
+
+/-- the complete prescribed event sequence of a verifier run (the prover's is the prefix up to the last challenge) -/
+def fullEvents (ctx : List Event) (x : Pub) (A : Bytes) (lrs : List (Bytes × Bytes)) (a1 b : Bytes)
+    (r1 s1 : Bytes) (d1 : List Bytes) : List Event := beforeWeight ctx x A lrs a1 b r1 s1 d1
+
+/-- **C04 (data under a round challenge).** For a fixed caller history, the history in front of round challenge
+    `e_j` determines the statement, `A`, and every `L`, `R` up to and including round `j`. -/
+theorem beforeE_inj_data (ctx : List Event) (x x' : Pub) (hx : x.ok) (hx' : x'.ok) (A A' : Bytes)
+    (lrs lrs' : List (Bytes × Bytes)) (l r l' r' : Bytes)
+    (h : beforeE ctx x A lrs l r = beforeE ctx x' A' lrs' l' r') :
+    x = x' ∧ A = A' ∧ lrs = lrs' ∧ l = l' ∧ r = r' := by
+  unfold beforeE beforeY at h
+  simp only [List.append_assoc] at h
+  have h1 := List.append_cancel_left h
+  simp only [List.singleton_append] at h1
+  obtain ⟨hx1, hA, ht⟩ := stmt_inj_tail x x' hx hx' A A' _ _ h1
+  simp only [List.cons_append, List.nil_append, List.cons.injEq, true_and] at ht
+  obtain ⟨hl, ht'⟩ := roundEvents_inj lrs lrs' _ _ (by simp) ht
+  simp only [List.cons.injEq, and_true] at ht'
+  exact ⟨hx1, hA, hl, by injection ht'.1, by injection ht'.2⟩
+
+/-- **C04 (data under the final challenge).** -/
+theorem beforeFinal_inj_data (ctx : List Event) (x x' : Pub) (hx : x.ok) (hx' : x'.ok) (A A' : Bytes)
+    (lrs lrs' : List (Bytes × Bytes)) (a1 b a1' b' : Bytes)
+    (h : beforeFinal ctx x A lrs a1 b = beforeFinal ctx x' A' lrs' a1' b') :
+    x = x' ∧ A = A' ∧ lrs = lrs' ∧ a1 = a1' ∧ b = b' := by
+  unfold beforeFinal beforeY at h
+  simp only [List.append_assoc] at h
+  have h1 := List.append_cancel_left h
+  simp only [List.singleton_append] at h1
+  obtain ⟨hx1, hA, ht⟩ := stmt_inj_tail x x' hx hx' A A' _ _ h1
+  simp only [List.cons_append, List.nil_append, List.cons.injEq, true_and] at ht
+  obtain ⟨hl, ht'⟩ := roundEvents_inj lrs lrs' _ _ (by simp) ht
+  simp only [List.cons.injEq, and_true] at ht'
+  exact ⟨hx1, hA, hl, by injection ht'.1, by injection ht'.2⟩
+
+/-- **C08 (what the weight sees).** The history a member contributes to the weight derivation determines, on top of
+    everything under the final challenge, the response scalars `r1`, `s1` and every `d1_k` (both proofs carry as many
+    `d1` scalars as the extension degree, which the verifier checks against the statement). -/
+theorem beforeWeight_inj_data (ctx : List Event) (x x' : Pub) (hx : x.ok) (hx' : x'.ok) (A A' : Bytes)
+    (lrs lrs' : List (Bytes × Bytes)) (a1 b a1' b' r1 s1 r1' s1' : Bytes) (d1 d1' : List Bytes)
+    (hd : d1.length = d1'.length)
+    (h : beforeWeight ctx x A lrs a1 b r1 s1 d1 = beforeWeight ctx x' A' lrs' a1' b' r1' s1' d1') :
+    x = x' ∧ A = A' ∧ lrs = lrs' ∧ a1 = a1' ∧ b = b' ∧ r1 = r1' ∧ s1 = s1' ∧ d1 = d1' := by
+  unfold beforeWeight beforeFinal beforeY at h
+  simp only [List.append_assoc] at h
+  have h1 := List.append_cancel_left h
+  simp only [List.singleton_append] at h1
+  obtain ⟨hx1, hA, ht⟩ := stmt_inj_tail x x' hx hx' A A' _ _ h1
+  simp only [List.cons_append, List.nil_append, List.cons.injEq, true_and] at ht
+  obtain ⟨hl, ht'⟩ := roundEvents_inj lrs lrs' _ _ (by simp [hd]) ht
+  simp only [List.cons.injEq, true_and] at ht'
+  obtain ⟨ha1, hb, hr1, hs1, hd1⟩ := ht'
+  refine ⟨hx1, hA, hl, by injection ha1, by injection hb, by injection hr1, by injection hs1, ?_⟩
+  exact (map_inj_of_length (append "d1") d1 d1' (fun a _ b _ hab => by injection hab) [] [] hd (by simpa using hd1)).1
 
 end Model.Transcript
